@@ -160,3 +160,10 @@ Example C18_model_runs :
   space_point_f Checked drift_tables 1%float 1%float 0.5%float = Err ERR_TIME /\
   space_point_f Wrapping drift_tables 0x1p-23%float 1%float (-2)%float = Err ERR_Z.
 Proof. vm_compute. repeat split; reflexivity. Qed.
+
+(* the executable binary64 instance (the one compared bit for bit with the implementation) returns the same
+   (radius, correction), error or panic for z and -z: for ANY tables and all floats, NaN and infinities included *)
+Theorem C18_z_symmetric_binary64 : forall m (ts : ptables) t z,
+  tables_at prim_arith m ts (PrimFloat.opp z) t = tables_at prim_arith m ts z t.
+Proof. exact z_symmetric_prim_lemma. Qed.
+Print Assumptions C18_z_symmetric_binary64.
